@@ -773,8 +773,9 @@ class CallMixin:
     def prop_of(self, prop):
         if prop is not None:
             return prop
+        # an untagged clause serves every property its contract is registered for
         c = self.cur_contract
-        return c.props[0] if c is not None and c.props else None
+        return list(c.props) if c is not None and c.props else None
 
     def havoc_modifies(self, c, st, env):
         self._havoc_mod = c.key.split(":")[0] if ":" in c.key else None
